@@ -493,6 +493,25 @@ pub fn main(a: &Args) {
                 }
             }
         }
+        // the top of the id space end to end (the I/O loop keeps its own poll tokens just above the
+        // channel ids): explicit and automatic use of ids 65535 / 65534 and their neighbours
+        for (max, ops) in [
+            (65535u16, vec![Op::Some(65535), Op::Some(65534), Op::Some(65535), Op::Close(65535), Op::Some(65535),
+                            Op::Auto, Op::Close(65534), Op::Some(65534), Op::Some(0)]),
+            (65534u16, vec![Op::Some(65534), Op::Some(65535), Op::Some(65533), Op::Close(65534), Op::Auto, Op::Some(65534)]),
+            (65535u16, vec![Op::Some(65533), Op::Some(65535), Op::Close(65533), Op::Close(65535), Op::Some(65535)]),
+        ] {
+            if budget_hangs == 0 {
+                break;
+            }
+            let ok = run_e2e(&mut oute, max, &ops, "top-of-range", limit);
+            evaluations += 1;
+            distinct.insert(format!("e2etop{}:{:?}", max, ops));
+            if !ok {
+                hangs += 1;
+                budget_hangs -= 1;
+            }
+        }
         // random e2e sessions with a larger id space
         let n = if thorough { 200 } else { 30 };
         for _ in 0..n {
